@@ -14,6 +14,13 @@ let kb_of = function
     (match add_rules [] (List.map rule_of rules) with
      | Ok kb -> kb
      | _ -> bad "kb: add_rules panics")
+  | L (A "kb-text" :: texts) ->
+    let rules = List.map (function
+        | A t -> (match api_parse_rule (str_of_atom t) with Ok (POk r) -> r | _ -> bad "kb-text: rule rejected")
+        | x -> bad ("kb-text: " ^ Sexp.to_string x)) texts in
+    (match add_rules [] rules with
+     | Ok kb -> kb
+     | _ -> bad "kb: add_rules panics")
   | x -> bad ("kb: " ^ Sexp.to_string x)
 
 (* what the specification (Spec/SpecSolve.v) demands of the query held in a slot: the
